@@ -94,7 +94,10 @@ Proof. vm_compute. repeat split. Qed.
 (* ... and when the later parameters are no stricter than those of the computation (min_delta 0
    in the prune call, min_npix no larger, the same other criteria; the computation may have used
    any min_delta), "the stricter parameters" are the computation's own and C08 holds: the pruned
-   dendrogram IS the computed one (PruneLaxer.v). *)
+   dendrogram IS the computed one (PruneLaxer.v).  Through Dendrogram.prune() itself a min_delta
+   argument of 0 means "inherit the recorded value", so with d0 > 0 this situation is one of the
+   model's prune_struct only; the call-level statement for d0 = 0 is
+   C07_prune_without_arguments_after_compute. *)
 From Dendro Require Import PruneLaxer.
 Theorem C08_holds_when_the_later_parameters_are_no_stricter :
   forall shape per vals minv d0 n0 m0 n m user,
